@@ -354,39 +354,39 @@ func c24Run(r *simkit.Run) {
 	// quiescent reads: stable, and the same after a restart of the pool object on the same storage
 	final := make([]int, nk)
 	r.Do("quiescent-reads", func() {
-	for k := 0; k < nk; k++ {
-		a := lookup(c24In{Op: "get", Key: k}).Val
-		b := lookup(c24In{Op: "get", Key: k}).Val
+		for k := 0; k < nk; k++ {
+			a := lookup(c24In{Op: "get", Key: k}).Val
+			b := lookup(c24In{Op: "get", Key: k}).Val
 
-		if a != b {
-			r.Fail("unstable-read", "quiescent", "key %d read %d then %d at quiescence", k, a, b)
+			if a != b {
+				r.Fail("unstable-read", "quiescent", "key %d read %d then %d at quiescence", k, a, b)
+			}
+
+			if mode == 1 {
+				if p := lookup(c24In{Op: "getpoint", Key: k}).Val; p != a {
+					r.Fail("point-lookup-differs", "quiescent", "key %d: Proposal(hash)=%d but ProposalByPoint=%d", k, a, p)
+				}
+			}
+
+			final[k] = a
+			r.Checked()
 		}
 
-		if mode == 1 {
-			if p := lookup(c24In{Op: "getpoint", Key: k}).Val; p != a {
-				r.Fail("point-lookup-differs", "quiescent", "key %d: Proposal(hash)=%d but ProposalByPoint=%d", k, a, p)
+		pool2, err := isaacdatabase.NewTempPool(st, encs, enc, 0)
+		if err != nil {
+			panic(err)
+		}
+
+		old := pool
+		pool = pool2
+
+		for k := 0; k < nk; k++ {
+			if a := lookup(c24In{Op: "get", Key: k}).Val; a != final[k] {
+				r.Fail("restart-differs", "reopen", "key %d read %d before and %d after re-creating the pool on the same storage", k, final[k], a)
 			}
 		}
 
-		final[k] = a
-		r.Checked()
-	}
-
-	pool2, err := isaacdatabase.NewTempPool(st, encs, enc, 0)
-	if err != nil {
-		panic(err)
-	}
-
-	old := pool
-	pool = pool2
-
-	for k := 0; k < nk; k++ {
-		if a := lookup(c24In{Op: "get", Key: k}).Val; a != final[k] {
-			r.Fail("restart-differs", "reopen", "key %d read %d before and %d after re-creating the pool on the same storage", k, final[k], a)
-		}
-	}
-
-	pool = old
+		pool = old
 	})
 
 	// ---- clean-up: only entries at least `depth` below the newest height go ----
@@ -438,36 +438,36 @@ func c24Cleanup(r *simkit.Run, pool *isaacdatabase.TempPool, mode int, marshal f
 	}
 
 	r.Do("populate", func() {
-	for i := 0; i < n; i++ {
-		h := hs[i]
-		if i == 0 {
-			h = top
-		}
-
-		point := base.RawPoint(int64(h), uint64(i))
-		e := entry{h: h}
-
-		if mode == 0 {
-			fact := isaac.NewINITBallotFact(point, valuehash.RandomSHA256(), valuehash.RandomSHA256(), nil)
-			sf := isaac.NewINITBallotSignFact(fact)
-			_ = sf.NodeSign(signer.Privatekey(), common.NetworkID, signer.Address())
-			e.bl = isaac.NewINITBallot(nil, sf, nil)
-
-			if _, err := pool.SetBallot(e.bl); err != nil {
-				panic(err)
+		for i := 0; i < n; i++ {
+			h := hs[i]
+			if i == 0 {
+				h = top
 			}
-		} else {
-			fs := isaac.NewProposalSignFact(isaac.NewProposalFact(point, signer.Address(), valuehash.RandomSHA256(), nil))
-			_ = fs.Sign(signer.Privatekey(), common.NetworkID)
-			e.pr = fs
 
-			if _, err := pool.SetProposal(fs); err != nil {
-				panic(err)
+			point := base.RawPoint(int64(h), uint64(i))
+			e := entry{h: h}
+
+			if mode == 0 {
+				fact := isaac.NewINITBallotFact(point, valuehash.RandomSHA256(), valuehash.RandomSHA256(), nil)
+				sf := isaac.NewINITBallotSignFact(fact)
+				_ = sf.NodeSign(signer.Privatekey(), common.NetworkID, signer.Address())
+				e.bl = isaac.NewINITBallot(nil, sf, nil)
+
+				if _, err := pool.SetBallot(e.bl); err != nil {
+					panic(err)
+				}
+			} else {
+				fs := isaac.NewProposalSignFact(isaac.NewProposalFact(point, signer.Address(), valuehash.RandomSHA256(), nil))
+				_ = fs.Sign(signer.Privatekey(), common.NetworkID)
+				e.pr = fs
+
+				if _, err := pool.SetProposal(fs); err != nil {
+					panic(err)
+				}
 			}
-		}
 
-		entries = append(entries, e)
-	}
+			entries = append(entries, e)
+		}
 	})
 
 	ctx, cancel := context.WithCancel(context.Background())
@@ -488,30 +488,30 @@ func c24Cleanup(r *simkit.Run, pool *isaacdatabase.TempPool, mode int, marshal f
 	removed := 0
 
 	r.Do("check-cleanup", func() {
-	for _, e := range entries {
-		var found bool
+		for _, e := range entries {
+			var found bool
 
-		if mode == 0 {
-			_, found, _ = pool.Ballot(e.bl.Point().Point, base.StageINIT, false)
-		} else {
-			_, found, _ = pool.Proposal(e.pr.Fact().Hash())
-		}
-
-		if !found {
-			removed++
-		}
-
-		r.Checked()
-
-		if !found && e.h > top-base.Height(depth) {
-			what := "ballot"
-			if mode == 1 {
-				what = "proposal"
+			if mode == 0 {
+				_, found, _ = pool.Ballot(e.bl.Point().Point, base.StageINIT, false)
+			} else {
+				_, found, _ = pool.Proposal(e.pr.Fact().Hash())
 			}
 
-			r.Fail("cleanup-too-eager", what, "clean-up removed a %s at height %d although the newest height is %d and the configured depth is %d", what, e.h, top, depth)
+			if !found {
+				removed++
+			}
+
+			r.Checked()
+
+			if !found && e.h > top-base.Height(depth) {
+				what := "ballot"
+				if mode == 1 {
+					what = "proposal"
+				}
+
+				r.Fail("cleanup-too-eager", what, "clean-up removed a %s at height %d although the newest height is %d and the configured depth is %d", what, e.h, top, depth)
+			}
 		}
-	}
 
 	})
 
@@ -524,11 +524,11 @@ func c24Cleanup(r *simkit.Run, pool *isaacdatabase.TempPool, mode int, marshal f
 
 func init() {
 	simkit.Register(&simkit.Harness{
-		ID:   "C24",
-		Run:  c24Run,
-		Real: []string{"isaacdatabase.TempPool (SetBallot/Ballot/SetProposal/Proposal/ProposalByPoint/clean-up daemon)", "leveldbstorage.Storage + PrefixStorage", "goleveldb on memory storage", "JSON encoder (encoding/json fallback)"},
-		Stub: []string{},
-		Rule: "each run draws ballot or proposal mode, 2-4 clients x 2-6 operations over 1-3 colliding keys, every set with a unique payload (different signer); the kernel interleaves clients at every simulated lock operation inside the pool/storage (between Exists and Put); the recorded history of sets and lookups is checked by porcupine against a write-once register per key; quiescent reads must be stable, byte-identical to a submitted object, equal by hash and by point, and equal after re-creating the pool on the same storage; in half of the runs the clean-up daemon is then run on the fake clock over entries at drawn heights. distinct = event-log hash; non-trivial = non-zero choice and oracle evaluated",
+		ID:          "C24",
+		Run:         c24Run,
+		Real:        []string{"isaacdatabase.TempPool (SetBallot/Ballot/SetProposal/Proposal/ProposalByPoint/clean-up daemon)", "leveldbstorage.Storage + PrefixStorage", "goleveldb on memory storage", "JSON encoder (encoding/json fallback)"},
+		Stub:        []string{},
+		Rule:        "each run draws ballot or proposal mode, 2-4 clients x 2-6 operations over 1-3 colliding keys, every set with a unique payload (different signer); the kernel interleaves clients at every simulated lock operation inside the pool/storage (between Exists and Put); the recorded history of sets and lookups is checked by porcupine against a write-once register per key; quiescent reads must be stable, byte-identical to a submitted object, equal by hash and by point, and equal after re-creating the pool on the same storage; in half of the runs the clean-up daemon is then run on the fake clock over entries at drawn heights. distinct = event-log hash; non-trivial = non-zero choice and oracle evaluated",
 		Assumptions: []string{"SetBallot/SetProposal boolean returns are not part of the oracle (the statement speaks of what is kept and returned)"},
 	})
 }
